@@ -281,4 +281,20 @@ theorem session_after_prefix (c : Client) (pre : List Step) (st : Step) :
     (session c (pre ++ [st]))[pre.length]? = some (plan c.cfg st.args st.script) := by
   simp [session_eq_map]
 
+theorem session_step_alone (c : Client) (steps : List Step) (k : Nat) :
+    ((session c steps)[k]?).map (fun p => [p]) = steps[k]?.map (fun st => session c [st]) := by
+  rw [session_getElem?]; cases steps[k]? <;> simp [session, Client.login]
+
+theorem session_connect_own (cl : Client) (steps : List Step) (k : Nat) (p : Plan) (c : Connect)
+    (hp : (session cl steps)[k]? = some p) (h : p.outcome = .ok c) :
+    ∃ st r, steps[k]? = some st ∧ p = plan cl.cfg st.args st.script ∧ st.script.first = .resp r ∧ c.pid = r.pid := by
+  rw [session_getElem?] at hp
+  cases hs : steps[k]? with
+  | none => simp [hs] at hp
+  | some st =>
+    simp [hs] at hp
+    subst hp
+    obtain ⟨r, ku, key, t, tf, hf, _, _, _, _, hc, _⟩ := plan_connect_inv cl.cfg st.args st.script c h
+    exact ⟨st, r, rfl, rfl, hf, by simp [hc]⟩
+
 end Nx.Backend
